@@ -10,7 +10,7 @@ import eqsig
 from eqsig.fns import time_step as ts
 
 from pbt import gen
-from pbt.core import clause, HarnessError, tier
+from pbt.core import clause, enum_clause, HarnessError, tier
 
 PROPERTY = "C14"
 CLAUSES = []
@@ -42,6 +42,19 @@ ASSUMPTIONS = [
     "avoidable incommensurate length stays a violation): SciPy spaces the samples at npts*dt/len(out), not at the reported step; there the "
     "reproduction is asserted on the instants i*npts*dt/len(out) (when every m_j < len(out)/2) and step / ratio / length / "
     "evenness rules stay enforced; every commensurate case is asserted strictly",
+    "mid-range enumerations (mid-range-interp / -fourier / -history): record lengths 2 000..300 000 (quick) / ..2 000 000 (thorough), "
+    "refinement by k <= 10 (refined output <= 3e6 / 1.2e7 samples for interpolation, 1.2e6 / 6e6 for Fourier resampling: one case per "
+    "length takes the largest k under the cap), decimation by k <= 50, dt in [1e-3, 0.2] (x k for the float-product family), records "
+    "ordinary (noise x envelope / walk / sines + noise / ramp + noise, offset up to 50 standard deviations, |a| <= 6e4); Fourier test "
+    "record: 3-4 cosines on exact bins, |c| in [0.05, 20] (+ the old Nyquist bin for some refinements of even lengths)",
+    "mid-range Fourier oracle: the closed form is evaluated with the phase m*i*new_dt/(npts*dt) mod 1 accumulated in 64-bit fixed point from "
+    "the exact rational of the returned doubles (error < n*2^-65 + 2^-53 cycles) and the cosine in double precision; it is compared "
+    "with the long-double closed form on ~2000 instants of every case (harness error above 1e-11*sum|c|).  Tolerance re-derived for the "
+    "size: 'at the instants i*new_dt' takes the RETURNED double step, which is off the ideal dt/k or dt*k by up to eps (relative), i.e. the "
+    "phase of component m at the last instant by 2 pi m eps; tolerance (1e-9 + 8 eps max m)*sum|c| (2.7e-10 extra at npts = 300 000, "
+    "1.8e-9 at 2 000 000); on the known-finding route (instants i*npts*dt/len(out), integer phase arithmetic) it stays 1e-9*sum|c|",
+    "mid-range-history: values are replaced through reset_values() with a record of the SAME length; the object is read through "
+    "fa_spectrum and velocity between calls; every answer is judged by the absolute oracle for the values held at that moment",
 ]
 EPS = np.finfo(float).eps
 LD = np.longdouble
@@ -279,29 +292,20 @@ def interp_rule(case, ctx):
     spec = case["rec"]
     a0 = gen.build(spec)
     arg = gen.as_container(spec, a0)
-    a = np.array(arg, dtype=float)  # what the library sees (the int variant rounds)
-    dt, target, even = case["dt"], case["target"], bool(case["even"])
-    form = case.get("form", "kw")
+    _interp_check(ctx, case, arg, spec["k"], spec.get("as"))
+
+
+def _interp_oracle(ctx, a, dt, target, even, res_values, new_dt, what):
+    """The interpolation sentence of the statement on one result: step / ratio / length / evenness rules, retained samples
+    (every one of them), range.  a = the record as float64; returns (mode, k, out)."""
     npts = len(a)
-    if Fraction(npts - 1) * Fraction(dt) < 2 * max(Fraction(dt), Fraction(target)):
-        raise HarnessError("case outside the quantifier: duration < 2*max(dt, target)")
-    before = np.array(arg).copy()
-    res = _call(ctx, ts.interp_array_to_approx_dt, (arg, dt), target, even, form)
-    ctx.check(isinstance(res, tuple) and len(res) == 2, "interp_array_to_approx_dt did not return (values, dt): %r" % (type(res),))
-    out, new_dt = res
-    out = np.asarray(out)
-    ctx.check(out.ndim == 1 and out.dtype.kind == "f", "interpolated values: ndim=%d dtype=%s" % (out.ndim, out.dtype))
-    ctx.equal(np.array(arg), before, "input record after the call")
+    out = np.asarray(res_values)
+    ctx.check(out.ndim == 1 and out.dtype.kind == "f", "%s: interpolated values: ndim=%d dtype=%s" % (what, out.ndim, out.dtype))
     n_out = len(out)
-    mode, k = _step_rules(ctx, dt, target, new_dt, npts, n_out, even, "interp_array_to_approx_dt")
-    _classify_pair(ctx, case, mode, k, npts, n_out)
-    ctx.cls("kind=" + spec["k"], gen.size_class(npts), "npts-odd" if npts % 2 else "npts-even")
-    if spec.get("as"):
-        ctx.cls("as=" + spec["as"])
+    mode, k = _step_rules(ctx, dt, target, new_dt, npts, n_out, even, what)
     lo, hi = float(a.min()), float(a.max())
     rng = hi - lo
     amax = max(abs(lo), abs(hi))
-    ctx.nt(mode != "same" and rng > 0)
     ctx.finite(out, "interpolated values")
     # retained samples
     if mode in ("refine", "same"):
@@ -324,8 +328,33 @@ def interp_rule(case, ctx):
     tol_r = 4 * EPS * amax
     ctx.check(bool(np.all(out >= lo - tol_r) and np.all(out <= hi + tol_r)),
               "values leave the input's range [%r, %r]: min %r max %r" % (lo, hi, float(out.min()), float(out.max())))
+    return mode, k, out
+
+
+def _interp_check(ctx, case, arg, kind, container=None, asig=None):
+    """Array level (oracle on the whole output) + object level (differential, bitwise) for one record `arg`.  asig: an existing
+    signal object holding the record (history variant) instead of a fresh one."""
+    a = np.array(arg, dtype=float)  # what the library sees (the int variant rounds)
+    dt, target, even = case["dt"], case["target"], bool(case["even"])
+    form = case.get("form", "kw")
+    npts = len(a)
+    if Fraction(npts - 1) * Fraction(dt) < 2 * max(Fraction(dt), Fraction(target)):
+        raise HarnessError("case outside the quantifier: duration < 2*max(dt, target)")
+    before = np.array(arg).copy()
+    res = _call(ctx, ts.interp_array_to_approx_dt, (arg, dt), target, even, form)
+    ctx.check(isinstance(res, tuple) and len(res) == 2, "interp_array_to_approx_dt did not return (values, dt): %r" % (type(res),))
+    ctx.equal(np.array(arg), before, "input record after the call")
+    mode, k, out = _interp_oracle(ctx, a, dt, target, even, res[0], res[1], "interp_array_to_approx_dt")
+    new_dt = res[1]
+    n_out = len(out)
+    _classify_pair(ctx, case, mode, k, npts, n_out)
+    ctx.cls("kind=" + kind, gen.size_class(npts), "npts-odd" if npts % 2 else "npts-even")
+    if container:
+        ctx.cls("as=" + container)
+    ctx.nt(mode != "same" and float(a.max()) > float(a.min()))
     # object level
-    asig = ctx.lib(eqsig.AccSignal, a, dt)
+    if asig is None:
+        asig = ctx.lib(eqsig.AccSignal, a, dt)
     o = _call(ctx, ts.interp_to_approx_dt, (asig,), target, even, form)
     ctx.check(isinstance(o, eqsig.AccSignal), "interp_to_approx_dt returned %r, not an AccSignal" % (type(o),))
     ctx.equal(np.asarray(o.values), out, "interp_to_approx_dt(...).values vs interp_array_to_approx_dt")
@@ -333,6 +362,7 @@ def interp_rule(case, ctx):
     ctx.check(o.npts == n_out, "interp_to_approx_dt(...).npts=%r vs %d values" % (o.npts, n_out))
     ctx.check(asig.dt == dt, "interp_to_approx_dt changed the dt of its argument: %r" % (asig.dt,))
     ctx.equal(np.asarray(asig.values), a, "values of the signal passed to interp_to_approx_dt")
+    return mode, k, n_out
 
 
 # ---------------------------------------------------------------------------
@@ -410,6 +440,44 @@ def _tones_exact_grid(comps, m_list, n):
     return x
 
 
+_TWO_PI_F = 2.0 * math.pi
+_TWO64 = 1 << 64
+
+
+def _tones_fx(comps, m_list, n, cps):
+    """The same closed form, sum_j c_j cos(2 pi m_j i cps + phi_j), i = 0..n-1, for mid-range sizes.  cps (cycles of the record
+    period per sample) is an exact Fraction; the phase m*cps*i mod 1 is accumulated in 64-bit fixed point (R = round(frac(m*cps)*2^64),
+    i*R wraps modulo 2^64 in uint64 arithmetic), so its error is below n*2^-65 + 2^-53 cycles (4e-12 rad at n = 2.4e7); cosine and
+    sum in double precision (error a few eps * sum|c|)."""
+    i = np.arange(n, dtype=np.uint64)
+    x = np.zeros(n)
+    for (mu, c, phi), m in zip(comps, m_list):
+        r = (Fraction(int(m)) * cps) % 1
+        big_r = int(round(r * _TWO64)) % _TWO64
+        u = i * np.uint64(big_r)
+        s = (u >> np.uint64(11)).astype(np.float64) * 2.0 ** -53
+        x += float(c) * np.cos(_TWO_PI_F * s + float(phi))
+    return x
+
+
+def _cross_check_fx(expect, comps, m_list, n, cycles_per_sample, csum):
+    """Harness self-check: the fixed-point reference agrees with the long-double closed form (_tones) on ~2000 instants spread over
+    the output (first and last included).  A disagreement is a bug in the oracle, never a violation."""
+    if n <= 2048:
+        idx = np.arange(n)
+    else:
+        idx = np.unique(np.concatenate([[0, 1, n - 2, n - 1], (np.arange(2000) * (n / 2000.0) + 0.37 * (n / 2000.0)).astype(np.int64)]))
+    i = idx.astype(LD)
+    x = np.zeros(len(idx), dtype=LD)
+    for (mu, c, phi), m in zip(comps, m_list):
+        s = i * cycles_per_sample * LD(m)
+        s = s - np.floor(s)
+        x = x + LD(c) * np.cos(TWO_PI * s + LD(phi))
+    d = float(np.max(np.abs(x - expect[idx].astype(LD))))
+    if not d <= 1e-11 * csum:
+        raise HarnessError("fixed-point reference differs from the long-double closed form by %.3e (sum|c| = %.3e)" % (d, csum))
+
+
 @clause(CLAUSES, "fourier-rule", _fourier_cases(), quick=2000, thorough=10000,
         rule="(dt, target) pairs as in interp-rule (k <= 30, plus 1 case in 20 decimating by 49 / 98 / 103 / 107, whose reciprocals are "
              "inexact in double precision); npts from the duration precondition up to 1500 (2500 thorough), for "
@@ -424,23 +492,47 @@ def _tones_exact_grid(comps, m_list, n):
                  "incommensurate": 0.1, "m-top": 0.1, "not-even": 0.3},
         min_nontrivial=0.4)
 def fourier_rule(case, ctx):
-    npts, dt, target, even = int(case["npts"]), case["dt"], case["target"], bool(case["even"])
+    _fourier_check(ctx, case)
+
+
+def _m_list(comps, big_m):
+    """first component: m in 1..M (a genuine oscillation); further components: m in 0..M (0 = constant offset)"""
+    return [min(big_m, (1 + int(mu * big_m)) if j == 0 else int(mu * (big_m + 1))) for j, (mu, c, phi) in enumerate(comps)]
+
+
+def _fourier_signal(case, ctx=None, fast=False):
+    """(x, comps, m_list, big_m) of a Fourier case: the band-limited periodic test record, double precision."""
+    npts, dt, target = int(case["npts"]), case["dt"], case["target"]
     comps = case["comps"]
-    form = case.get("form", "kw")
     if Fraction(npts - 1) * Fraction(dt) < 2 * max(Fraction(dt), Fraction(target)):
         raise HarnessError("case outside the quantifier: duration < 2*max(dt, target)")
     big_m = _band_limit(npts, dt, target)
     if big_m < 1:
         raise HarnessError("no admissible oscillating component (cannot happen under the duration precondition)")
-    # first component: m in 1..M (a genuine oscillation); further components: m in 0..M (0 = constant offset)
-    m_list = [min(big_m, (1 + int(mu * big_m)) if j == 0 else int(mu * (big_m + 1))) for j, (mu, c, phi) in enumerate(comps)]
+    m_list = _m_list(comps, big_m)
     if case.get("nyq") and npts % 2 == 0 and Fraction(target) < Fraction(dt):
         comps = list(comps) + [[1.0, case["nyq"][0], case["nyq"][1]]]
         m_list = m_list + [npts // 2]
-        ctx.cls("old-nyquist-component")
-    x = np.asarray(_tones_exact_grid(comps, m_list, npts), dtype=float)
+        if ctx is not None:
+            ctx.cls("old-nyquist-component")
+    if fast:
+        x = _tones_fx(comps, m_list, npts, Fraction(1, npts))
+    else:
+        x = np.asarray(_tones_exact_grid(comps, m_list, npts), dtype=float)
+    return x, comps, m_list, big_m
+
+
+def _fourier_check(ctx, case, fast=False, asig=None, signal=None):
+    """The Fourier sentence of the statement on one call.  fast=False: long-double closed form, tolerance 1e-9*sum|c| (records of a
+    few thousand samples); fast=True (mid-range sizes): the same closed form with the phase accumulated in 64-bit fixed point from the
+    exact rational cycles-per-sample, cross-checked against the long-double form on a sample of instants, and the tolerance
+    re-derived for the size (see ASSUMPTIONS).  asig: an existing signal object holding the test record (history variant)."""
+    npts, dt, target, even = int(case["npts"]), case["dt"], case["target"], bool(case["even"])
+    form = case.get("form", "kw")
+    x, comps, m_list, big_m = signal if signal is not None else _fourier_signal(case, ctx, fast)
     csum = float(sum(abs(c) for mu, c, phi in comps))
-    asig = ctx.lib(eqsig.AccSignal, x, dt)
+    if asig is None:
+        asig = ctx.lib(eqsig.AccSignal, x, dt)
     o = _call(ctx, ts.resample_to_approx_dt, (asig,), target, even, form)
     ctx.check(isinstance(o, eqsig.AccSignal), "resample_to_approx_dt returned %r, not an AccSignal" % (type(o),))
     y = np.asarray(o.values)
@@ -465,12 +557,20 @@ def fourier_rule(case, ctx):
     ctx.cls("commensurate" if commensurate else "incommensurate", mode + ("-commensurate" if commensurate else "-incommensurate"))
     tol = 1e-9 * csum
     # the statement: output[i] = x(i * new_dt)
-    per_sample = LD(float(new_dt)) / (LD(npts) * LD(dt))
-    expect = _tones(comps, m_list, n_out, per_sample)
-    err = float(np.max(np.abs(y.astype(LD) - expect)))
+    if fast:
+        # the returned step is a double: fl(dt/k) resp. fl(dt/fl(1/k)) is off dt/k resp. dt*k by up to eps (relative, two
+        # roundings), which moves the last instant by eps*duration and the phase of component m there by 2 pi m eps < 8 m eps
+        tol = (1e-9 + 8 * EPS * max(m_list)) * csum
+        cps = Fraction(float(new_dt)) / (npts * Fraction(dt))
+        expect = _tones_fx(comps, m_list, n_out, cps)
+        _cross_check_fx(expect, comps, m_list, n_out, LD(float(new_dt)) / (LD(npts) * LD(dt)), csum)
+    else:
+        per_sample = LD(float(new_dt)) / (LD(npts) * LD(dt))
+        expect = _tones(comps, m_list, n_out, per_sample)
+    err = float(np.max(np.abs(y.astype(LD) - expect))) if not fast else float(np.max(np.abs(y - expect)))
     ctx.notes["err/tol"] = err / tol
     if err <= tol:
-        return
+        return mode, k, n_out
     # the known finding covers incommensurability that the statement's own rules FORCE: a decimation factor that does not
     # divide the record length, or an even length requested for an odd product k*npts.  Where a commensurate length exists
     # and is allowed (integer refinement / unchanged step with even=False, or an even product; decimation with k | npts and
@@ -483,12 +583,387 @@ def fourier_rule(case, ctx):
     if not commensurate and forced and ctx.kf("C14-KF1"):
         if all(2 * m < n_out for m in m_list):
             ctx.cls("kf-regrid-checked")
-            ctx.close(y, _tones_exact_grid(comps, m_list, n_out), tol,
+            regrid = _tones_fx(comps, m_list, n_out, Fraction(1, n_out)) if fast else _tones_exact_grid(comps, m_list, n_out)
+            ctx.close(y, regrid, 1e-9 * csum,
                       "incommensurate resampling (%d -> %d samples): output vs signal at the instants i*npts*dt/len(output)" % (
                           npts, n_out))
-        return
+        return mode, k, n_out
     j = int(np.argmax(np.abs(y.astype(LD) - expect)))
     ctx.fail("band-limited periodic signal (m=%s of npts=%d, dt=%r) not reproduced at i*new_dt (new_dt=%r, %d samples, %s): "
              "output[%d]=%r, signal %r, max error %.3e > %.3e" % (
                  m_list, npts, dt, float(new_dt), n_out, "commensurate" if commensurate else "len*new_dt != npts*dt",
                  j, float(y[j]), float(expect[j]), err, tol))
+
+
+# ---------------------------------------------------------------------------
+# mid-range sizes (2 000 .. 300 000 samples quick, .. 2 000 000 thorough) x refinement / decimation ratios x even x arbitrary /
+# prime / power-of-two / smooth lengths: a code path that exists only inside a window of record lengths (blocked interpolation,
+# padding to a fast FFT length, a reduced-precision or streamed variant for long records) is invisible to the random clauses
+# above, whose records stop at 3000 / 2500 samples.  Same oracles, whole output checked.
+
+import hashlib as _hashlib
+
+MID_HI = {"quick": 300000, "thorough": 2000000}
+MID_COUNT = {"quick": 16, "thorough": 36}
+MID_NEIGHBOURS = {"quick": 5, "thorough": 10}
+MID_OUT_CAP = {("interp", "quick"): 3000000, ("interp", "thorough"): 12000000,
+               ("fourier", "quick"): 1200000, ("fourier", "thorough"): 6000000}
+K_REFINE = (2, 10)
+K_DECIMATE = (2, 50)
+
+
+def _hh(*parts):
+    s = ":".join(str(p) for p in parts)
+    return int(_hashlib.blake2b(s.encode(), digest_size=8).hexdigest(), 16)
+
+
+def _unit_hash(*parts):
+    return (_hh(*parts) % 10 ** 9) / 1e9
+
+
+def _is_prime(n):
+    if n < 2:
+        return False
+    if n % 2 == 0:
+        return n == 2
+    f = 3
+    while f * f <= n:
+        if n % f == 0:
+            return False
+        f += 2
+    return True
+
+
+def _next_prime(n):
+    while not _is_prime(n):
+        n += 1
+    return n
+
+
+def _next_pow2(n):
+    return 1 << int(n - 1).bit_length()
+
+
+def _next_smooth(n):
+    """Smallest 2^a 3^b 5^c 7^d >= n (a highly composite length)."""
+    best = _next_pow2(n)
+    p7 = 1
+    while p7 < best:
+        p5 = p7
+        while p5 < best:
+            p3 = p5
+            while p3 < best:
+                v = p3
+                while v < n:
+                    v *= 2
+                best = min(best, v)
+                p3 *= 3
+            p5 *= 5
+        p7 *= 7
+    return best
+
+
+def _mid_sizes(tier, which):
+    """Record lengths of a mid-range enumeration: the seed-placed ladder (one length per logarithmic bin, arbitrary parity and
+    factorisation), lengths aimed at integer literals of the source under test, and for a few hash-chosen ladder lengths their
+    next prime, next power of two (previous one when the next leaves the range) and next 7-smooth neighbours."""
+    hi = MID_HI[tier]
+    tag = "c14-%s-%s" % (which, tier)
+    lad = gen.ladder(2000, hi, MID_COUNT[tier], tag)
+    sizes = set(gen.size_ladder(2000, hi, MID_COUNT[tier], tag))
+    sizes.update(gen.ladder(int(0.9 * hi), hi, 2, tag + "-top")[-1:])   # the last tenth of the range is always visited
+    picks = sorted(lad, key=lambda n: _hh(gen.run_seed(), tag, "nb", n))[:MID_NEIGHBOURS[tier]]
+    for s in picks:
+        p2 = _next_pow2(s)
+        sizes.update([_next_prime(s), p2 if p2 <= hi else p2 // 2, min(hi, _next_smooth(s + 1))])
+    return sorted(sizes)
+
+
+_MID_DTS = [d for d in gen.REPO_DTS if d <= 0.2]
+# (slot, even): every length meets refinement, decimation (record length a multiple of the factor / arbitrary) and an unchanged
+# step, each with both values of `even`
+_MID_SLOTS = [("refine", True), ("refine", False), ("decimate-mult", True), ("decimate-mult", False), ("decimate-free", None),
+              ("same", True), ("same", False)]
+
+
+def _mid_pair(slot, k, key):
+    """(dt, target, fam) for a refinement / decimation by k or an unchanged step: commensurate as a float product or quotient, or
+    a generic (non-commensurate) quotient with the same integer factor."""
+    u = _unit_hash(key, "dt")
+    dt = _MID_DTS[_hh(key, "dtpick") % len(_MID_DTS)] if u < 0.5 else float(10.0 ** (-3 + 2.3 * _unit_hash(key, "dtlog")))
+    fam = ["comm-quot", "comm-prod", "generic"][_hh(key, "fam") % 3]
+    frac = 0.05 + 0.9 * _unit_hash(key, "frac")
+    if slot == "refine":
+        if fam == "comm-quot":
+            target = dt / k
+        elif fam == "comm-prod":
+            dt, target = dt * k, dt
+        else:
+            target = dt / (k - 1 + frac)
+    elif slot.startswith("decimate"):
+        if fam == "comm-prod":
+            target = dt * k
+        elif fam == "comm-quot":
+            dt, target = dt / k, dt
+        else:
+            target = dt * (k + frac)
+    else:
+        if fam == "generic":
+            target = dt * (1.0 + frac)   # below two steps: the step cannot be doubled, it stays
+        else:
+            target = dt
+            fam = "equal"
+    return float(dt), float(target), fam
+
+
+def _pick_k(slot, npts, cap, key, top=False):
+    if slot == "refine":
+        hi = max(K_REFINE[0], min(K_REFINE[1], cap // npts))
+        if top:
+            return hi
+        return K_REFINE[0] + _hh(key, "k") % (hi - K_REFINE[0] + 1)
+    if slot.startswith("decimate"):
+        # log-uniform over 2..50: small factors are as frequent as large ones
+        lo, hi = K_DECIMATE
+        return int(min(hi, math.exp(math.log(lo) + (math.log(hi + 1) - math.log(lo)) * _unit_hash(key, "k"))))
+    return 1
+
+
+def _mid_cases(tier, which):
+    """Plain-JSON cases of the mid-range enumerations (deterministic in VERIF_SEED)."""
+    seed = gen.run_seed()
+    cap = MID_OUT_CAP[(which, tier)]
+    cases = []
+    for s in _mid_sizes(tier, which):
+        for slot, even in _MID_SLOTS:
+            key = "%d:%s:%s:%d:%s:%s" % (seed, which, tier, s, slot, even)
+            # of the two refining cases of a length one (hash-chosen) takes the largest admissible factor: the longest outputs
+            top = slot == "refine" and bool(even) == bool(_hh(seed, which, tier, s, "topslot") % 2)
+            k = _pick_k(slot, s, cap, key, top)
+            dt, target, fam = _mid_pair(slot, k, key)
+            mode, kk = _ref_factor(dt, target)   # the statement's rule on the doubles (a float product can land next to k)
+            npts = s
+            if slot == "decimate-mult" and mode == "decimate":
+                q = max(3, int(round(s / float(kk))))
+                if even:
+                    q += q % 2   # even quotient: the requested even length is commensurate
+                npts = kk * q
+            if even is None:
+                even = bool(_hh(key, "even") % 2)
+            case = {"npts": int(npts), "dt": dt, "target": target, "even": bool(even), "fam": fam, "slot": slot,
+                    "form": FORMS[_hh(key, "form") % 3], "seed": int(_hh(key, "seed") % (2 ** 31 - 1))}
+            cases.append(case)
+    return cases
+
+
+def _length_class(n):
+    if n & (n - 1) == 0:
+        return "len=power-of-two"
+    if _is_prime(n):
+        return "len=prime"
+    m = n
+    for p in (2, 3, 5, 7):
+        while m % p == 0:
+            m //= p
+    return "len=7-smooth" if m == 1 else ("len=odd" if n % 2 else "len=even")
+
+
+def _octave(n):
+    return "npts~2^%d" % int(math.floor(math.log2(n)))
+
+
+# ---- interpolation
+
+MID_KINDS = ["noise-env", "walk", "sines-noise", "ramp-noise"]
+_MID_OFFSETS = [0.0, 0.0, 3.0, -3.0, 50.0, -50.0]
+
+
+def _mid_record(n, seed):
+    """An ordinary record of n samples, content right up to the end (no quiet tail), distinct values throughout, often a non-zero
+    mean (a block filled with 0 or dropped then leaves the range / breaks the retained samples).  Returns (values, kind, spec)."""
+    rs = np.random.RandomState(seed)
+    kind = MID_KINDS[rs.randint(len(MID_KINDS))]
+    amp = 10.0 ** rs.randint(-3, 4)
+    off = _MID_OFFSETS[rs.randint(len(_MID_OFFSETS))]
+    t = np.arange(n) / float(n)
+    if kind == "noise-env":
+        a = rs.standard_normal(n) * (0.4 + 0.6 * np.sin(math.pi * (1.5 + 3 * rs.rand()) * t) ** 2)
+    elif kind == "walk":
+        a = np.cumsum(rs.standard_normal(n)) / math.sqrt(n)
+    elif kind == "sines-noise":
+        a = 0.1 * rs.standard_normal(n)
+        for _ in range(3):
+            a += rs.uniform(0.2, 1.0) * np.sin(2 * math.pi * rs.uniform(0.3, n / 8.0) * t + rs.uniform(0, 6.28))
+    else:
+        a = rs.uniform(-4, 4) * t + 0.2 * rs.standard_normal(n)
+    a = (a + off) * amp
+    how = [None, None, None, None, "view", "negstride", "readonly", "int"][rs.randint(8)]
+    if how == "int" and amp < 100:
+        how = None
+    return np.ascontiguousarray(a, dtype=float), kind, how
+
+
+def _mid_interp_enum(tier, shard, nshards):
+    for i, case in enumerate(_mid_cases(tier, "interp")):
+        if i % nshards == shard:
+            yield case
+
+
+@enum_clause(CLAUSES, "mid-range-interp", _mid_interp_enum,
+             rule="record lengths: ladder of 16 (quick, 2 000..300 000) / 36 (thorough, ..2 000 000) seed-placed sizes + one in the last "
+                  "tenth of the range, sizes aimed at integer literals of the source, next-prime / power-of-two / 7-smooth neighbours of "
+                  "5 / 10 of them; every length x {refine k in 2..10 (one of the two cases: the largest k with output <= 3e6 / 1.2e7), decimate k in 2..50 with npts a multiple of k, decimate with the arbitrary length, unchanged step "
+                  "(target == dt or dt < target < 2 dt)} x even in {T, F}; (dt, target) commensurate as float product / quotient or "
+                  "generic; records noise x envelope / walk / sines + noise / ramp + noise with offsets 0, +-3, +-50 and container "
+                  "variants; three call forms; non-trivial = step changed",
+             oracle="the oracle of interp-rule on the WHOLE output (every retained sample bitwise / to 4 eps (npts*range + max|a|), range, "
+                    "rational step / ratio / length / evenness rules) + differential object level vs array level (bitwise)",
+             exhaustive_note="all listed (length, ratio, even) combinations", quick_shards=4,
+             require={"refine": 0.2, "decimate": 0.3, "same": 0.15, "even": 0.4, "not-even": 0.4, "len=prime": 0.03,
+                      "len=power-of-two": 0.03},
+             min_nontrivial=0.5)
+def mid_range_interp(case, ctx):
+    n = int(case["npts"])
+    a0, kind, how = _mid_record(n, case["seed"])
+    arg = gen.as_container({"as": how}, a0)
+    ctx.cls(_length_class(n), _octave(n), "slot=" + case["slot"])
+    mode, k, n_out = _interp_check(ctx, case, arg, kind, how)
+    ctx.cls("%s-%s" % (mode, "even" if case["even"] else "not-even"))
+
+
+# ---- Fourier resampling
+
+
+def _mid_comps(case):
+    """3-4 components (mu, c, phi): one anywhere in the band, one at (or just below) the top of the band, one slow, and in half
+    of the cases a constant offset; amplitudes 0.05..20 with either sign.  The signal is periodic over the record, so it is as
+    loud in the last samples as anywhere else."""
+    rs = np.random.RandomState(case["seed"])
+    top = 1.0 if rs.randint(3) else 0.9
+    if case["slot"] == "decimate-free":
+        top = 0.9    # the known-finding route can only be checked below the (truncated) new Nyquist index
+    mus = [rs.uniform(0.02, min(top, 0.98)), top, rs.uniform(0.0, 0.02)]
+    comps = [[float(mu), float(rs.choice([-1.0, 1.0]) * 10.0 ** rs.uniform(-1.3, 1.3)), float(rs.uniform(0, 6.2831))] for mu in mus]
+    if rs.randint(2):
+        comps.append([0.0, float(rs.choice([-1.0, 1.0]) * 10.0 ** rs.uniform(-1.3, 1.3)), 0.0])
+    nyq = None
+    if rs.randint(3) == 0:
+        nyq = [float(rs.choice([-1.0, 1.0]) * 10.0 ** rs.uniform(-1.3, 1.3)), float(rs.choice([0.0, 3.141592653589793]))]
+    return comps, nyq
+
+
+def _mid_fourier_case(case):
+    comps, nyq = _mid_comps(case)
+    full = dict(case, comps=comps)
+    if nyq is not None and case["slot"] == "refine" and case["npts"] % 2 == 0:
+        full["nyq"] = nyq
+    return full
+
+
+def _mid_fourier_enum(tier, shard, nshards):
+    for i, case in enumerate(_mid_cases(tier, "fourier")):
+        if i % nshards == shard:
+            yield _mid_fourier_case(case)
+
+
+@enum_clause(CLAUSES, "mid-range-fourier", _mid_fourier_enum,
+             rule="lengths, ratios, even and (dt, target) families as in mid-range-interp (own ladder; refined output capped at 1.2e6 quick "
+                  "/ 6e6 thorough samples); test record = 3-4 cosines on exact bins of the record (one anywhere in the band, one at the "
+                  "top index M or 0.9 M, one slow, optionally a constant, for refinement of an even length sometimes the old Nyquist "
+                  "bin), loud up to the last sample; non-trivial = step changed",
+             oracle="the oracle of fourier-rule on the WHOLE output: closed form at i*new_dt, phase in 64-bit fixed point from the exact "
+                    "rational step (cross-checked against long double on 2000 instants), tolerance (1e-9 + 8 eps max m)*sum|c|; forced "
+                    "incommensurate lengths (C14-KF1, unchanged matcher): closed form at i*npts*dt/len(output), 1e-9*sum|c|",
+             exhaustive_note="all listed (length, ratio, even) combinations", quick_shards=4,
+             require={"refine": 0.2, "decimate": 0.3, "same": 0.15, "commensurate": 0.4, "refine-commensurate": 0.12,
+                      "decimate-commensurate": 0.2, "len=prime": 0.03, "len=power-of-two": 0.03, "not-even": 0.4, "even": 0.4},
+             min_nontrivial=0.5)
+def mid_range_fourier(case, ctx):
+    n = int(case["npts"])
+    ctx.cls(_length_class(n), _octave(n), "slot=" + case["slot"])
+    mode, k, n_out = _fourier_check(ctx, case, fast=True)
+    ctx.cls("%s-%s" % (mode, "even" if case["even"] else "not-even"))
+
+
+# ---- histories at mid-range size: the same signal object / the same record length asked again with other options and other values
+
+
+def _mid_history_enum(tier, shard, nshards):
+    seed = gen.run_seed()
+    hi = 250000 if tier == "quick" else 1500000
+    sizes = gen.ladder(3000, hi, 6 if tier == "quick" else 14, "c14-history-%s" % tier)
+    i = 0
+    for s in sizes:
+        for which in ("interp", "fourier"):
+            key = "%d:hist:%s:%s:%d" % (seed, which, tier, s)
+            cap = MID_OUT_CAP[(which, tier)]
+            kd = _pick_k("decimate", s, cap, key + ":d")
+            dt, t_dec, _ = _mid_pair("decimate", kd, key + ":d")
+            kd = _ref_factor(dt, t_dec)[1]
+            q = max(4, int(round(s / float(kd))))
+            if which == "interp" or _hh(key, "qpar") % 3 == 0:
+                q += 1 - q % 2   # odd quotient: the requested evenness changes the length (Fourier: forced incommensurate, C14-KF1)
+            else:
+                q += q % 2       # even quotient: decimation by kd is commensurate for both values of `even`
+            npts = kd * q
+            kr = _pick_k("refine", npts, cap, key + ":r")
+            if which == "interp" and kr % 2 == 0:
+                kr += 1 if kr < K_REFINE[1] else -1   # odd factor: with an odd length the evenness matters for refinement too
+            fam = _hh(key, "rfam") % 2
+            t_ref = dt / kr if fam else dt / (kr - 1 + 0.05 + 0.9 * _unit_hash(key, "rfrac"))
+            e = bool(_hh(key, "even") % 2)
+            first, second = (t_dec, t_ref) if _hh(key, "order") % 2 else (t_ref, t_dec)
+            steps = [{"target": first, "even": e, "pre": "read"},
+                     {"target": first, "even": not e, "pre": None},
+                     {"target": second, "even": e, "pre": None},
+                     {"target": first, "even": e, "pre": "reset"},
+                     {"target": second, "even": not e, "pre": "read"},
+                     {"target": second, "even": e, "pre": None}]
+            if i % nshards == shard:
+                yield {"which": which, "npts": int(npts), "dt": float(dt), "steps": steps, "seed": int(_hh(key, "seed") % (2 ** 31 - 1)),
+                       "form": FORMS[_hh(key, "form") % 3]}
+            i += 1
+
+
+@enum_clause(CLAUSES, "mid-range-history", _mid_history_enum,
+             rule="6 (quick, 3 000..250 000) / 14 (thorough, ..1 500 000) seed-placed lengths (a multiple of the decimation factor; odd "
+                  "quotient and odd refinement factor for interpolation so that `even` changes the length, even quotient in 2 of 3 "
+                  "Fourier histories) x {interpolation, Fourier}: ONE signal object is read (spectrum, velocity), resampled with (target A, "
+                  "even e), (A, not e), (target B, e), then its values are replaced (reset_values, same length) and it is resampled with "
+                  "(A, e), after another read (B, not e), and (B, e); A / B = a decimating and a refining target in hash-chosen order: "
+                  "both targets see `even` switched on and off on unchanged lengths",
+             oracle="every answer of the history is held against the full oracle of mid-range-interp / mid-range-fourier for the values "
+                    "the object holds at that moment (absolute reference, independent of the history) and, for interpolation, against a "
+                    "fresh array-level call (bitwise)",
+             exhaustive_note="all listed histories", quick_shards=4, min_nontrivial=0.9)
+def mid_range_history(case, ctx):
+    npts, dt = int(case["npts"]), case["dt"]
+    which = case["which"]
+    ctx.cls("which=" + which, _octave(npts))
+    ctx.nt(True)
+    rs = np.random.RandomState(case["seed"])
+    seeds = [int(rs.randint(2 ** 31 - 1)) for _ in range(2)]
+    if which == "interp":
+        recs = [_mid_record(npts, sd) for sd in seeds]
+    else:
+        # band limit common to every target of the history
+        big_m = min(_band_limit(npts, dt, st_["target"]) for st_ in case["steps"])
+        recs = []
+        for sd in seeds:
+            comps, _nyq = _mid_comps({"seed": sd, "slot": "history"})
+            m_list = _m_list(comps, big_m)
+            recs.append((_tones_fx(comps, m_list, npts, Fraction(1, npts)), comps, m_list, big_m))
+    cur = 0
+    asig = ctx.lib(eqsig.AccSignal, recs[0][0], dt)
+    for j, step in enumerate(case["steps"]):
+        if step["pre"] == "read":
+            ctx.lib(lambda: (asig.fa_spectrum, asig.velocity))
+        elif step["pre"] == "reset":
+            cur = 1
+            ctx.lib(asig.reset_values, recs[1][0])
+        sub = {"npts": npts, "dt": dt, "target": step["target"], "even": step["even"], "form": case["form"], "fam": "history"}
+        ctx.cls("step%d" % j)
+        if which == "interp":
+            _interp_check(ctx, sub, recs[cur][0], recs[cur][1], None, asig=asig)
+        else:
+            _fourier_check(ctx, sub, fast=True, asig=asig, signal=recs[cur])
